@@ -54,6 +54,7 @@ def replay_run(monitor_classes, rep, shim_factory=None, drive=None):
 LIFE_SHAPES_Q = [
     ("DE", "DE"), ("SEA", "CMAf"), ("SHADE", "LOC"), ("LHS", "SOB"), ("MWEA", "CMAw"), ("GA", "SHADE"),
     ("DE", "SEA", "DE"), ("SEA", "DE", "CMAf"), ("LHS", "SOB", "DE"), ("SEAX", "CMAs", "LOC"), ("DEd", "SEAA", "SHADE"),
+    ("STUB", "DE"), ("DE", "STUBEA"), ("SEA", "STUBEA", "STUB"), ("STUBEA", "STUB", "CMAw"),
 ]
 
 
